@@ -8,6 +8,7 @@ import (
 
 	"github.com/kstenerud/go-concise-encoding/ce"
 	"github.com/kstenerud/go-concise-encoding/ce/events"
+	"github.com/kstenerud/go-concise-encoding/configuration"
 	"pgregory.net/rapid"
 
 	"verif/internal/ev"
@@ -225,6 +226,13 @@ func init() {
 				case 0:
 					e = rapid.SampledFrom([]uint64{0, 1, 0x80, 0xff, 0x7f, 0x8000, 0xffff, 0x7f800001, 0x7fc00000, 0xff800000, 0x80000000, 0xffffffff,
 						0x7ff0000000000001, 0x7ff8000000000000, 0x8000000000000000, 0xffffffffffffffff, 0x0102030405060708}).Draw(t, "especial")
+				case 1:
+					// exactly at, just below and just above every power of two, and their two's complements
+					k := uint(rapid.IntRange(0, 63).Draw(t, "pow"))
+					e = uint64(1)<<k + uint64(rapid.IntRange(-1, 1).Draw(t, "powd"))
+					if rapid.Bool().Draw(t, "pneg") {
+						e = -e
+					}
 				default:
 					e = rapid.Uint64().Draw(t, "e")
 				}
@@ -312,10 +320,97 @@ func init() {
 				if !bytes.Equal(payload, ref) {
 					return fmt.Errorf("%s: the %s codec carries %x for this slice, the helper gives %x", c.Kind, format, clipBytes(payload), clipBytes(ref))
 				}
+				// decoder direction: the same array twice in a list, with different contents, followed by a
+				// string: what the untyped unmarshal builds from the payloads is what the helper gives for them
+				// (and stays that way while the decoder goes on using its buffers)
+				rev := make([]uint64, len(c.Elems))
+				for i, e := range c.Elems {
+					rev[len(rev)-1-i] = ^e & (uint64(1)<<(uint(c26Width[c.Kind])*8) - 1)
+					if c26Width[c.Kind] == 8 {
+						rev[len(rev)-1-i] = ^e
+					}
+				}
+				if c.Kind == "f32" || c.Kind == "f64" {
+					continue // the builders may normalise NaN payloads of float elements; the integer kinds carry the check
+				}
+				listDoc, idx, eerr := encodeWithFormat(format, []ev.Event{{K: ev.BD}, {K: ev.Version}, {K: ev.List},
+					{K: ev.Array, AT: c26AT[c.Kind], U: uint64(len(c.Elems)), Bs: ref},
+					{K: ev.Array, AT: c26AT[c.Kind], U: uint64(len(rev)), Bs: c26Ref(c.Kind, rev)},
+					{K: ev.Array, AT: events.ArrayTypeString, U: 26, Bs: []byte("abcdefghijklmnopqrstuvwxyz")},
+					{K: ev.End}, {K: ev.ED}}, cfg)
+				if idx >= 0 {
+					return fmt.Errorf("harness: list of two arrays rejected by the encoder: %v", eerr)
+				}
+				got, uerr, bad := unmarshalDoc(ctx, format, listDoc, nil, cfg)
+				if bad != nil {
+					return bad
+				}
+				if uerr != nil {
+					return fmt.Errorf("%s: a list of two arrays (%s) does not unmarshal: %v", c.Kind, format, uerr)
+				}
+				l, ok := got.([]interface{})
+				if !ok || len(l) != 3 {
+					return fmt.Errorf("%s: a list of two arrays and a string (%s) unmarshals to %T %v", c.Kind, format, got, got)
+				}
+				for i, want := range [][]uint64{c.Elems, rev} {
+					bits, ok := c26Bits(l[i])
+					if !ok {
+						return fmt.Errorf("%s: array %d of the list (%s) was built as %T", c.Kind, i, format, l[i])
+					}
+					if !u64sEq(bits, want) && !(len(bits) == 0 && len(want) == 0) {
+						return fmt.Errorf("%s: array %d of a decoded list (%s) holds %x, its payload says %x", c.Kind, i, format, clipU64(bits), clipU64(want))
+					}
+				}
 			}
 			return nil
 		},
 	})
+}
+
+// c26Bits returns the element bit patterns of a typed slice built by the unmarshaler.
+func c26Bits(v interface{}) (out []uint64, ok bool) {
+	switch s := v.(type) {
+	case []int8:
+		for _, e := range s {
+			out = append(out, uint64(uint8(e)))
+		}
+	case []uint8:
+		for _, e := range s {
+			out = append(out, uint64(e))
+		}
+	case []uint16:
+		for _, e := range s {
+			out = append(out, uint64(e))
+		}
+	case []int16:
+		for _, e := range s {
+			out = append(out, uint64(uint16(e)))
+		}
+	case []uint32:
+		for _, e := range s {
+			out = append(out, uint64(e))
+		}
+	case []int32:
+		for _, e := range s {
+			out = append(out, uint64(uint32(e)))
+		}
+	case []uint64:
+		out = append(out, s...)
+	case []int64:
+		for _, e := range s {
+			out = append(out, uint64(e))
+		}
+	default:
+		return nil, false
+	}
+	return out, true
+}
+
+func encodeWithFormat(format string, evs []ev.Event, cfg *configuration.Configuration) ([]byte, int, error) {
+	if format == "cbe" {
+		return encodeCBE(evs, cfg)
+	}
+	return encodeCTE(evs, cfg)
 }
 
 func clipBytes(b []byte) []byte {
